@@ -173,6 +173,8 @@ def run(res, ctx):
     for g, o in zip(glue, gout):
         st["e2e-glue-" + o["status"]] += 1
     e2e_diffs += [(dict(ghc[k], corpus=glue[k]["name"]), d) for k, d in dd]
+    import props.c07_cli as c07_cli
+    c07_cli.run(res, ctx, rng, st)
     if e2e_diffs and not res.violations:
         hc, d = e2e_diffs[0]
         res.violation("broken-correspondence", "reader + bridge model and implementation differ: " + d,
@@ -188,6 +190,7 @@ def run(res, ctx):
         "e2e_evaluations": st["e2e-evaluations"],
         "e2e_rule": "every CSV text of the run (original and re-laid-out, several files) and an 80-case corpus aimed at the glue are tokenised with Python's csv module and their cells given to the extracted Rocq reader + bridge + ledger (entry 30 of Exec/CodecE2E.v); compared with the implementation bit-exactly (status, rejection class by message, every delta: action, affiliate, settlement day, balances before/after, ACB, gain, superficial-loss data), row by row with the Tx values the implementation parsed (shares, price, commission, both exchange rates, split terms and whole-number flag, dates, affiliate id and registered flag, read index), and with the Python-encoded model run (identical output required); the e2e:* counters of input_distribution count the kinds of cells exercised",
         "distinct_nontrivial": st["distinct_nontrivial"],
+        "cli_rule": "the real acb binary is run on the same rows given as one file and as 2-3 files named on the command line in non-lexical order (crafted same-day Buy/Sell pairs across the file boundary, and generated histories cut at random points); exit status and report text must be identical",
         "rule": "each seeded random input is run as generated and re-laid-out (random file partition, column permutation, header case/padding, unknown columns incl. a blank-headed one, row permutation keeping the relative order of same-security same-settlement-date rows); non-trivial = layout differs and the input parses; distinct by SHA-1 of the original CSV",
         "samples": samples,
         "input_distribution": dict(sorted(st.items())),
